@@ -203,6 +203,30 @@ func runC14(p *an.Prog, r *an.Run, tier string) {
 				bad = append(bad, "messages are dispatched to handlers without testing that they carry a Request part")
 			}
 		}
+		// every delivery to a waiting caller in the read loop goes to the channel of the received message's own id: a
+		// second hand-off ("a null-id error goes to the longest-waiting call") ends some other call with a reply that
+		// answers a different message
+		an.AllInstrs(serve, func(in ssa.Instruction) {
+			sd, ok := in.(*ssa.Send)
+			if !ok || sd == send {
+				return
+			}
+			if _, isMsg := sd.X.Type().Underlying().(*types.Struct); !isMsg {
+				return
+			}
+			keyed := false
+			for _, n := range p.Derives(0, sd.Chan).Nodes {
+				if c, ok := n.(*ssa.Call); ok && c.Common().StaticCallee() == gpc {
+					dk := p.Derives(0, c.Call.Args[1])
+					if dk.HasValue(msg) && dk.HasFieldNamed("Message", "ID") {
+						keyed = true
+					}
+				}
+			}
+			if !keyed {
+				bad = append(bad, "a message is also handed to a waiting caller at "+p.Pos(sd.Pos())+" through a channel that is not the one of the received message's id")
+			}
+		})
 		// the reply delivery: channel keyed by the received message's id; value is the message
 		dch := p.Derives(0, send.Chan)
 		var keyCall *ssa.Call
@@ -217,6 +241,32 @@ func runC14(p *an.Prog, r *an.Run, tier string) {
 			dk := p.Derives(0, keyCall.Call.Args[1])
 			if !dk.HasValue(msg) || !dk.HasFieldNamed("Message", "ID") {
 				bad = append(bad, "the reply is routed by something other than the received message's id")
+			}
+			// ... on every path: where the key is a merge, each alternative is the received message's id
+			seenK := map[ssa.Value]bool{}
+			var leaves []ssa.Value
+			var walkK func(v ssa.Value)
+			walkK = func(v ssa.Value) {
+				if seenK[v] {
+					return
+				}
+				seenK[v] = true
+				if ph, ok := v.(*ssa.Phi); ok {
+					for _, e := range ph.Edges {
+						walkK(e)
+					}
+					return
+				}
+				leaves = append(leaves, v)
+			}
+			walkK(keyCall.Call.Args[1])
+			if len(leaves) > 1 {
+				for _, lv := range leaves {
+					dl := p.Derives(0, lv)
+					if !dl.HasValue(msg) || !dl.HasFieldNamed("Message", "ID") {
+						bad = append(bad, "on some path the reply is routed by a key that is not the received message's id ("+p.Pos(lv.Pos())+"): some other call is ended with a reply that answers a different message")
+					}
+				}
 			}
 		}
 		if !p.Derives(0, send.X).HasValue(msg) {
